@@ -78,6 +78,12 @@ func putUint(fn *ssa.Function, a *ssa.Alloc) (val ssa.Value, bits int, little bo
 	if bits == 0 {
 		val, bits, little = manualPut(a)
 	}
+	// the buffer must be exactly as wide as the encoded value: PutUint16 into a 3-byte buffer puts 3 bytes on the wire / into the AAD
+	if bits != 0 {
+		if n, ok := knownLen(a); !ok || n*8 != int64(bits) {
+			return nil, 0, false, nil
+		}
+	}
 	return
 }
 
